@@ -133,10 +133,15 @@ fn client_parts(scn: &Value, net: &Net) -> Option<Parts> {
         let req = http::Request::get("https://a/").body(()).unwrap();
         let mut s: h3::client::RequestStream<SimBidi, Bytes> = block_on(Box::pin(sender.send_request(req))).and_then(|r| r.ok())?;
         let sid = s.id().into_inner();
-        let (bytes, fin) = stream_bytes(k);
-        net.deliver(sid, &bytes);
-        if fin {
-            net.peer_fin(sid);
+        if k == "quic_internal" || k == "quic_timeout" {
+            // the QUIC layer reports a connection-level error to this request task only
+            net.fault_stream_reads(sid, &k[5..]);
+        } else {
+            let (bytes, fin) = stream_bytes(k);
+            net.deliver(sid, &bytes);
+            if fin {
+                net.peer_fin(sid);
+            }
         }
         streams.push(Box::new(move |first| {
             if first {
@@ -183,11 +188,15 @@ fn server_parts(scn: &Value, net: &Net) -> Option<Parts> {
         net.deliver(sid, &[1, 8, 0, 0, 209, 215, 80, 1, 97, 193]);
         let resolver = block_on(Box::pin(conn.accept()))?.ok()??;
         let (_req, mut s) = block_on(Box::pin(resolver.resolve_request()))?.ok()?;
-        let (bytes, fin) = stream_bytes(k);
-        net.deliver(sid, &bytes);
-        // (on the server the undecodable section is a trailer section: it is examined once the stream has ended)
-        if fin || k == "qpack" {
-            net.peer_fin(sid);
+        if k == "quic_internal" || k == "quic_timeout" {
+            net.fault_stream_reads(sid, &k[5..]);
+        } else {
+            let (bytes, fin) = stream_bytes(k);
+            net.deliver(sid, &bytes);
+            // (on the server the undecodable section is a trailer section: it is examined once the stream has ended)
+            if fin || k == "qpack" {
+                net.peer_fin(sid);
+            }
         }
         streams.push(Box::new(move |_first| {
             // the body read runs into the primed bytes (an undecodable trailer section is met by recv_trailers)
